@@ -219,18 +219,18 @@ Definition b_class (a : attr) : list bytes :=
   | AClassTup ns b => map (fun n => if b then n else []) ns
   | _ => []
   end.
-(** html/style.rs: a whole value pushes [v;], a pair pushes [name:v;] *)
+(** html/style.rs: a whole value pushes [v] then ';', a pair pushes [name:v] then ';' *)
 Definition b_style (a : attr) : list bytes :=
   match a with
-  | APlain n (VLit s) | APlain n (VDynStr s) => if beq n k_style then [s ++ [59]] else []
-  | AStyleProp p v | AStyleTup p v => [p ++ [58] ++ v ++ [59]]
+  | APlain n (VLit s) | APlain n (VDynStr s) => if beq n k_style then [s] else []
+  | AStyleProp p v | AStyleTup p v => [p ++ [58] ++ v]
   | _ => []
   end.
 (** [attributes_to_html] *)
 Definition b_attr_list (attrs : list attr) : list (bytes * option bytes) :=
   let l := sort_attrs attrs in
   let class := flat_map (fun p => 32 :: p) (flat_map b_class l) in
-  let style := List.concat (flat_map b_style l) in
+  let style := flat_map (fun p => p ++ [59]) (flat_map b_style l) in
   flat_map b_plain l
   ++ (if is_nil class then [] else [(k_class, Some (trim class))])
   ++ (if is_nil style then [] else [(k_style, Some (trim style))]).
@@ -251,6 +251,16 @@ Definition b_escape (tag : bytes) : bool :=
   if is_custom tag || mem tag macro_svg || mem tag macro_mathml then true
   else negb (mem tag tachys_raw).
 
+(** rendering a sequence of views: the position is threaded through (view/tuples.rs) *)
+Definition thread {A} (f : position -> A -> bytes * position)
+  : position -> list A -> bytes * position :=
+  fix go (pos : position) (l : list A) {struct l} : bytes * position :=
+    match l with
+    | [] => ([], pos)
+    | x :: r => let '(h, p) := f pos x in
+                let '(t, p') := go p r in (h ++ t, p')
+    end.
+
 (** [node_to_tokens] followed by [to_html_with_buf] of what it built.
     [io] = inert-HTML optimisation enabled ([view!]; false for [template!] and for the
     "builder path" of the theorems); [top] = [top_level]. *)
@@ -258,35 +268,20 @@ Fixpoint r_node (io top escape : bool) (pos : position) (n : node) {struct n} : 
   match n with
   | NText s => if is_nil s then ([], pos) else r_text escape pos s
   | NBlock s => r_text escape pos s
-  | NFrag ch =>
-      (fix go (l : list node) (pos : position) : bytes * position :=
-         match l with
-         | [] => ([], pos)
-         | x :: r => let '(h, p) := r_node io true escape pos x in
-                     let '(t, p') := go r p in (h ++ t, p')
-         end) ch pos
+  | NFrag ch => thread (fun pos x => r_node io true escape pos x) pos ch
   | NElem tag attrs ch =>
       if negb top && io && is_inert_element n then (inert_node true n, PNext)
       else
         let body :=
           if mem tag macro_void then []
-          else fst ((fix go (l : list node) (pos : position) : bytes * position :=
-                       match l with
-                       | [] => ([], pos)
-                       | x :: r => let '(h, p) := r_node io false (b_escape tag) pos x in
-                                   let '(t, p') := go r p in (h ++ t, p')
-                       end) ch PFirst) in
+          else fst (thread (fun pos x => r_node io false (b_escape tag) pos x) PFirst ch) in
         ([60] ++ tag ++ print_attrs (b_attr_list attrs) ++ [62]
          ++ (if b_void tag then [] else body ++ [60; 47] ++ tag ++ [62]),
          PNext)
   end.
 
-Fixpoint r_list (io top escape : bool) (pos : position) (l : list node) : bytes * position :=
-  match l with
-  | [] => ([], pos)
-  | x :: r => let '(h, p) := r_node io top escape pos x in
-              let '(t, p') := r_list io top escape p r in (h ++ t, p')
-  end.
+Definition r_list (io top escape : bool) (pos : position) (l : list node) : bytes * position :=
+  thread (fun pos x => r_node io top escape pos x) pos l.
 
 (** [render_view] + [to_html()]: 0 nodes = (), 1 node = that node at top level, more = a fragment *)
 Definition view_html (io : bool) (t : list node) : bytes := fst (r_list io true true PFirst t).
@@ -381,16 +376,12 @@ Definition html_void : list bytes := tachys_void.
 Fixpoint dn (n : node) (cur : list tree) {struct n} : list tree :=
   match n with
   | NText s | NBlock s => push_text s cur
-  | NFrag ch =>
-      (fix go (l : list node) (cur : list tree) : list tree :=
-         match l with [] => cur | x :: r => go r (dn x cur) end) ch cur
+  | NFrag ch => fold_left (fun cur x => dn x cur) ch cur
   | NElem tag attrs ch =>
       TElem tag (denote_attrs attrs)
-        (rev (if mem tag html_void then []
-              else (fix go (l : list node) (cur : list tree) : list tree :=
-                      match l with [] => cur | x :: r => go r (dn x cur) end) ch []))
+        (rev (if mem tag html_void then [] else fold_left (fun cur x => dn x cur) ch []))
       :: cur
   end.
-Fixpoint dn_list (l : list node) (cur : list tree) : list tree :=
-  match l with [] => cur | x :: r => dn_list r (dn x cur) end.
+Definition dn_list (l : list node) (cur : list tree) : list tree :=
+  fold_left (fun cur x => dn x cur) l cur.
 Definition denote (t : list node) : list tree := rev (dn_list t []).
